@@ -140,6 +140,16 @@ fn judge(name: &str, before: &Snap, mb: &Msg, expected: &Result<Msg, OpErr>, rea
         }
         (Ok(_), Ok(Err(e))) => {
             out.c09 = v(format!("{}:unexpected_error", name), format!("{} failed on arguments that must succeed: {}", name, e));
+            // whatever the reason for the failure: an operation that reports an error must not have changed anything
+            match msg_of(after) {
+                Ok(ma) if ma == *mb => {
+                    if let Err((s, w)) = view_check(after) {
+                        out.c10 = v(format!("{}:failed_{}", name, s), format!("after failed {} ({}): {}", name, e, w));
+                    }
+                }
+                Ok(ma) => out.c10 = v(format!("{}:failed_but_changed", name), format!("{} reported an error ({}) but the message changed: {}", name, e, diff(mb, &ma))),
+                Err(d) => out.c10 = v(format!("{}:failed_but_changed", name), format!("{} reported an error ({}) and the bytes no longer decode ({})", name, e, d)),
+            }
             out.next = Some(after.clone());
         }
         (Err(why), Ok(Ok(()))) => {
